@@ -422,7 +422,13 @@ func (p *Prog) Guards(b *ssa.BasicBlock) []Atom {
 		case 1:
 			if a := p.edgeAtom(x.Preds[0], x); a != nil {
 				out = append(out, *a)
-				out = append(out, p.expandBoolPhi(*a, 0)...)
+				ex := p.expandBoolPhi(*a, 0)
+				out = append(out, ex...)
+				// a predicate factored into a helper: import what holds when the helper answers as it did
+				out = append(out, p.predicateAtoms(*a, 0)...)
+				for _, e := range ex {
+					out = append(out, p.predicateAtoms(e, 0)...)
+				}
 			}
 		default:
 			if or := p.orChain(x); or != nil {
@@ -431,6 +437,120 @@ func (p *Prog) Guards(b *ssa.BasicBlock) []Atom {
 		}
 	}
 	return out
+}
+
+// predicateAtoms: the guard is `g(args…)` (or its negation) for a module function g returning a single bool.
+// When every return of g that yields the observed truth value is reached under a common set of atoms, those
+// atoms hold in the caller as well. Operands that are g's parameters are replaced by the call's arguments; other
+// operands keep their (type-based) description, which is what the rules match on.
+func (p *Prog) predicateAtoms(a Atom, depth int) []Atom {
+	if depth > 1 || a.Op != token.ILLEGAL || a.X == nil || len(a.Or) > 0 {
+		return nil
+	}
+	call, ok := a.X.(*ssa.Call)
+	if !ok {
+		return nil
+	}
+	g := call.Call.StaticCallee()
+	if g == nil || g.Blocks == nil || !p.InModule(g) || len(g.Blocks) > 40 {
+		return nil
+	}
+	res := g.Signature.Results()
+	if res.Len() != 1 || !isBoolT(res.At(0).Type()) {
+		return nil
+	}
+	want := a.Truth
+	var sets [][]Atom
+	for _, b := range g.Blocks {
+		r, ok := b.Instrs[len(b.Instrs)-1].(*ssa.Return)
+		if !ok {
+			continue
+		}
+		v := retOperand(r, 0)
+		gs := p.Guards(b)
+		if k, isK := v.(*ssa.Const); isK && k.Value != nil {
+			if (k.Value.ExactString() == "true") != want {
+				continue
+			}
+			sets = append(sets, gs)
+			continue
+		}
+		// return <expr>: the value itself is the observed truth
+		va := p.MkAtom(v, want, nil)
+		cur := append([]Atom{va}, gs...)
+		cur = append(cur, p.expandBoolPhi(va, 0)...)
+		sets = append(sets, cur)
+	}
+	if len(sets) == 0 {
+		return nil
+	}
+	// intersection by text
+	var out []Atom
+	for _, cand := range sets[0] {
+		all := true
+		for _, other := range sets[1:] {
+			found := false
+			for _, o := range other {
+				if o.Text == cand.Text {
+					found = true
+				}
+			}
+			if !found {
+				all = false
+			}
+		}
+		if all {
+			out = append(out, p.substParams(cand, g, call))
+		}
+	}
+	return out
+}
+
+func isBoolT(t types.Type) bool {
+	b, ok := t.Underlying().(*types.Basic)
+	return ok && b.Kind() == types.Bool
+}
+
+// substParams replaces operands of a that are parameters of g by the corresponding arguments of call.
+func (p *Prog) substParams(a Atom, g *ssa.Function, call *ssa.Call) Atom {
+	sub := func(v ssa.Value) ssa.Value {
+		if par, ok := v.(*ssa.Parameter); ok && par.Parent() == g {
+			for i, q := range g.Params {
+				if q == par && i < len(call.Call.Args) {
+					return call.Call.Args[i]
+				}
+			}
+		}
+		return v
+	}
+	changed := false
+	if a.X != nil {
+		if n := sub(a.X); n != a.X {
+			a.X, changed = n, true
+		}
+	}
+	if a.Y != nil {
+		if n := sub(a.Y); n != a.Y {
+			a.Y, changed = n, true
+		}
+	}
+	for i := range a.Or {
+		a.Or[i] = p.substParams(a.Or[i], g, call)
+		changed = true
+	}
+	if changed && len(a.Or) == 0 {
+		switch {
+		case a.Op != token.ILLEGAL && a.Y != nil:
+			a.Text = p.Desc(a.X) + " " + a.Op.String() + " " + p.Desc(a.Y)
+		case a.Truth:
+			a.Text = p.Desc(a.X)
+		default:
+			a.Text = "!" + p.Desc(a.X)
+		}
+	} else if len(a.Or) > 0 {
+		a.Text = orText(a.Or)
+	}
+	return a
 }
 
 func orText(or []Atom) string {
